@@ -22,18 +22,27 @@ Definition o3_eqb (a : option (Z * Z * Z)) (b : Z * Z * Z) : bool :=
 Definition vrec := (Z * (Z * Z * Z) * (Z * Z) * Z)%type.
 
 Inductive obs :=
-(* stake x into (v, u): observed (units, v', u') and index prefix after (65536 = none) *)
-| OStake (x v u : Z) (res : Z * Z * Z) (registered : bool) (prefix : Z)
-| OUnstake (units v u : Z) (res : Z * Z * Z) (registered : bool) (prefix : Z)
+(* the state of the staking system when the history starts: per validator (stake vault, unit
+   supply, pending-withdraw vault, owner's locked units, fee factor, registered), rewards vault,
+   proposer rewards, epoch *)
+| OInit (vals : list (Z * Z * Z * Z * Z * bool)) (vault : Z) (proposer : list (Z * Z)) (epoch : Z)
+(* validator i: stake x into (v, u): observed (units, v', u') and index prefix after (65536 = none) *)
+| OStake (i x v u : Z) (res : Z * Z * Z) (registered : bool) (prefix : Z)
+(* validator i: unstake units (num_unstake_epochs nue); pending-withdraw vault after *)
+| OUnstake (i units nue v u : Z) (res : Z * Z * Z) (registered : bool) (prefix : Z) (pend' : Z)
+(* validator i: claim_xrd with the claim NFT (amt, ce) at epoch cur: succeeded?, XRD received,
+   pending-withdraw vault after *)
+| OClaim (i amt ce cur : Z) (ok : bool) (got pend' : Z)
 (* epoch change: configuration, active set with statistics, proposer rewards and rewards vault
-   before; observed emissions, rewards, validator states, and next validator set given the
-   index scan order observed *)
+   before; observed emissions, rewards, validator states, next validator set given the index scan
+   order observed; owner's locked units after, rewards vault after, epoch after *)
 | OEpoch (total_emission minrel maxv : Z)
          (active : list (Z * Z * Z * Z))
          (proposer : list (Z * Z)) (vault : Z)
          (emis : list (Z * Z)) (rew : list (Z * Z))
          (vals : list vrec)
-         (scan : list (Z * Z)) (next : list (Z * Z)).
+         (scan : list (Z * Z)) (next : list (Z * Z))
+         (locks : list Z) (vault' epoch' : Z).
 
 Definition prefix_ok (registered : bool) (stake prefix : Z) : bool :=
   if registered && negb (stake =? 0) then
@@ -53,13 +62,16 @@ Definition val_ok (emis rew : list (Z * Z)) (in_emis : Z -> bool) (r : vrec) : b
     end
   end.
 
+(* each operation on its own, against the pre-state the harness read from the ledger *)
 Definition check_obs (o : obs) : bool :=
   match o with
-  | OStake x v u res reg pre =>
+  | OInit _ _ _ _ => true
+  | OStake _ x v u res reg pre =>
       o3_eqb (stake x v u) res && prefix_ok reg (snd (fst res)) pre
-  | OUnstake units v u res reg pre =>
+  | OUnstake _ units _ v u res reg pre _ =>
       o3_eqb (unstake units v u) res && prefix_ok reg (snd (fst res)) pre
-  | OEpoch te minrel maxv active proposer vault emis rew vals scan next =>
+  | OClaim _ amt ce cur ok got _ => if ok then (ce <=? cur) && (got =? amt) else (cur <? ce) && (got =? 0)
+  | OEpoch te minrel maxv active proposer vault emis rew vals scan next _ _ _ =>
       match emissions te minrel active, rewards minrel active proposer vault with
       | Some e, Some r =>
           zz_eqb e emis && zz_eqb r rew &&
@@ -69,5 +81,106 @@ Definition check_obs (o : obs) : bool :=
       end
   end.
 
+(* the whole history against the state machine [sstep]: the model state is threaded through the
+   operations and must agree with every value the harness read from the ledger *)
+Definition vget (s : sys) (i : Z) : option vst := nth_error (svals s) (Z.to_nat i).
+Definition vsu_is (s : sys) (i v u : Z) : bool :=
+  match vget s i with Some x => (sv x =? v) && (su x =? u) | None => false end.
+Definition mk_vst (r : Z * Z * Z * Z * Z * bool) : vst :=
+  let '(v, u, p, l, ff, reg) := r in
+  {| sv := v; su := u; spend := p; slock := l; sff := ff; sreg := reg; sclaims := [] |}.
+(* fees collected since the last observation, reconstructed from the observed counters *)
+Fixpoint fee_ops (obs_prop : list (Z * Z)) (s : sys) : option sys :=
+  match obs_prop with
+  | [] => Some s
+  | (k, p) :: rest =>
+      match sstep s (SFee k (p - lookup k (sprop s)) 0) with
+      | Some s' => fee_ops rest s'
+      | None => None
+      end
+  end.
+Fixpoint zs_eqb (a b : list Z) : bool :=
+  match a, b with
+  | [], [] => true
+  | x :: a', y :: b' => (x =? y) && zs_eqb a' b'
+  | _, _ => false
+  end.
+
+Definition hist_step (st : option sys) (o : obs) : option sys :=
+  match o, st with
+  | OInit vals vault proposer epoch, _ =>
+      (* pending-withdraw vaults are empty at genesis (no claim NFT exists yet) *)
+      if forallb (fun r : Z * Z * Z * Z * Z * bool => snd (fst (fst (fst r))) =? 0) vals then
+        Some {| svals := map mk_vst vals; srv := vault; sprop := proposer; sepoch := epoch;
+                g_in := 0; g_out := 0; g_mint := 0 |}
+      else None
+  | _, None => None
+  | OStake i x v u (m, v', u') _ _, Some s =>
+      if vsu_is s i v u then
+        match sstep s (SStake i x) with
+        | Some s' => if vsu_is s' i v' u' then Some s' else None
+        | None => None
+        end
+      else None
+  | OUnstake i n nue v u (c, v', u') _ _ pend', Some s =>
+      if vsu_is s i v u then
+        match sstep s (SUnstake i n nue) with
+        | Some s' =>
+            match vget s' i with
+            | Some x => if (sv x =? v') && (su x =? u') && (spend x =? pend') &&
+                           (match sclaims x with (c0, _) :: _ => c0 =? c | [] => false end)
+                        then Some s' else None
+            | None => None
+            end
+        | None => None
+        end
+      else None
+  | OClaim i amt ce cur ok got pend', Some s =>
+      if sepoch s =? cur then
+        match sstep s (SClaim i amt ce), ok with
+        | Some s', true =>
+            match vget s' i with Some x => if spend x =? pend' then Some s' else None | None => None end
+        | None, false => Some s
+        | _, _ => None
+        end
+      else None
+  | OEpoch te minrel _ active proposer vault _ _ vals _ _ locks vault' epoch', Some s =>
+      match fee_ops proposer s with
+      | Some s1 =>
+          match sstep s1 (SFee 0 0 (vault - srv s1)) with
+          | Some s2 =>
+              if forallb (fun it : Z * Z => lookup (fst it) (sprop s2) =? snd it) proposer &&
+                 forallb (fun r : vrec => let '(id, (v, u, ff), _, _) := r in vsu_is s2 id v u) vals then
+                match sstep s2 (SEpoch te minrel active) with
+                | Some s3 =>
+                    if forallb (fun r : vrec => let '(id, _, (v', u'), _) := r in vsu_is s3 id v' u') vals &&
+                       zs_eqb (map slock (svals s3)) locks && (srv s3 =? vault') && (sepoch s3 =? epoch')
+                    then Some s3 else None
+                | None => None
+                end
+              else None
+          | None => None
+          end
+      | None => None
+      end
+  end.
+
+(* conservation, evaluated on the final model state: XRD held = XRD held initially + received
+   + minted - paid out (a consequence of C42_conservation; evaluating it also guards the ghost
+   counters against mistakes in this file) *)
+Definition hist_ok (c : list obs) : bool :=
+  match c with
+  | OInit vals vault proposer epoch :: rest =>
+      match hist_step None (OInit vals vault proposer epoch) with
+      | Some s0 =>
+          match fold_left hist_step rest (Some s0) with
+          | Some s => held s + g_out s =? held s0 + g_in s + g_mint s
+          | None => false
+          end
+      | None => false
+      end
+  | _ => false
+  end.
+
 Definition case := list obs.
-Definition check (c : case) : bool := forallb check_obs c.
+Definition check (c : case) : bool := forallb check_obs c && hist_ok c.
